@@ -35,6 +35,9 @@ def main():
     for d in sorted(glob.glob("/tmp/seed4/out/C??-?")):
         prop, x = os.path.basename(d).split("-")
         cands.append((prop, {"X": "G", "Y": "H"}.get(x, "I"), d, f"{d}/patch.diff", ""))
+    for d in sorted(glob.glob("/tmp/seed5/out/C??-?")):
+        prop, x = os.path.basename(d).split("-")
+        cands.append((prop, {"X": "I", "Y": "J"}.get(x, "K"), d, f"{d}/patch.diff", ""))
     for prop, X, d, patch, pre in cands:
         if True:
             sid = f"{prop}-{X}"
